@@ -1,51 +1,38 @@
 """Doubles that put the LMDB backend's threads under the explorer's control.
 
-* kv.threading.Thread   -> InertThread: start() starts nothing.
-* kv.queue.SimpleQueue  -> StepQueue: get() hands out at most `budget` items, then leaves the
-  caller (the real WriterThread.run body) through a private BaseException.
-* kv.futures.ThreadPoolExecutor -> JobExecutor: submit() registers a job with the running VLoop;
-  the explorer decides when it completes.
+* The writer is a REAL thread running the real WriterThread.run(), but it only runs while it holds a *grant*: every call
+  of queue.get() parks the thread until the controller grants one more item (the controller then waits until the thread
+  parks again, finishes or dies).  The thread keeps its locals while parked, so code that takes several items before
+  writing (a batching writer) behaves as it would under a real scheduler; the unchanged code processes exactly one task
+  per grant.  The LMDB double is only ever touched by one thread at a time (the controller sleeps while the writer runs).
+* kv.futures.ThreadPoolExecutor -> JobExecutor: submit() registers a job with the running VLoop; the explorer decides when
+  it completes (a read transaction sees the snapshot at its begin, so running it as one step is faithful).
 * kv.analyze -> no-op (it only feeds a logging thread).
 
-A *writer step* = run the real WriterThread.run() for exactly one queued task.
+A *writer step* = grant the parked writer thread exactly one queued task.
 """
 import types
-import asyncio
+import threading
 import collections
 import concurrent.futures
 
+from .env import HarnessError
 
-class _StepDone(BaseException):
-    pass
-
-
-class InertThread:
-    daemon = False
-
-    def __init__(self, *a, target=None, args=(), kwargs=None, **kw):
-        self._target = target
-        self._started = False
-
-    def start(self):
-        self._started = True
-
-    def is_alive(self):
-        return self._started
-
-    def join(self, timeout=None):
-        # storage.close(): drain everything that is queued (None sentinel ends the loop)
-        q = getattr(self, "queue", None)
-        if q is not None and hasattr(self, "run"):
-            while q._items:
-                writer_step(self)
+_REAL_THREAD = threading.Thread
 
 
-class StepQueue:
+class GrantQueue:
+    """queue.SimpleQueue double.  get() parks the calling (writer) thread until a grant arrives."""
+
     def __init__(self, maxsize=0):
         self._items = collections.deque()
-        self.budget = 0
         self.on_put = None
+        self._grant = threading.Semaphore(0)
+        self._parked = threading.Semaphore(0)
+        self.owner = None          # the thread object serving this queue
+        self.stopping = False
 
+    # -- producer side (event loop thread) ------------------------------------------------------------
     def put(self, item, block=True, timeout=None):
         self._items.append(item)
         if self.on_put is not None:
@@ -53,34 +40,111 @@ class StepQueue:
 
     put_nowait = put
 
-    def get(self, block=True, timeout=None):
-        if self.budget <= 0 or not self._items:
-            raise _StepDone()
-        self.budget -= 1
-        return self._items.popleft()
-
     def qsize(self):
         return len(self._items)
 
     def empty(self):
         return not self._items
 
+    # -- consumer side (writer thread) ---------------------------------------------------------------
+    def get(self, block=True, timeout=None):
+        # park: tell the controller we are waiting, then wait for a grant
+        self._parked.release()
+        self._grant.acquire()
+        if self.stopping and not self._items:
+            return None
+        if not self._items:
+            raise HarnessError("grant without a queued item")
+        return self._items.popleft()
+
+    def get_nowait(self):
+        if not self._items:
+            import queue as _q
+
+            raise _q.Empty()
+        return self._items.popleft()
+
+
+class ControlledThread(_REAL_THREAD):
+    """threading.Thread whose run() only progresses under grants of its queue (see GrantQueue)."""
+
+    def __init__(self, *a, **kw):
+        super().__init__(*a, **kw)
+        self.daemon = True
+        self.died_with = None
+        self._started_ctl = False
+
+    def start(self):
+        q = getattr(self, "queue", None)
+        if isinstance(q, GrantQueue):
+            q.owner = self
+        real_run = self.run
+
+        def guarded():
+            try:
+                real_run()
+            except BaseException as e:  # a Crash (process kill) terminates the writer
+                self.died_with = e
+            finally:
+                if isinstance(q, GrantQueue):
+                    q._parked.release()
+
+        self.run = guarded
+        self._started_ctl = True
+        super().start()
+        if isinstance(q, GrantQueue):
+            # wait until the thread parks in its first get()
+            if not q._parked.acquire(timeout=30):
+                raise HarnessError("writer thread did not park")
+
+    def join(self, timeout=None):
+        q = getattr(self, "queue", None)
+        if not isinstance(q, GrantQueue) or not self._started_ctl:
+            return
+        # storage.close(): everything that is queued (incl. the None sentinel) is processed
+        guard = 0
+        while self.is_alive() and q._items:
+            writer_step(self)
+            guard += 1
+            if guard > 100000:
+                raise HarnessError("writer does not drain")
+        if self.is_alive():
+            stop_writer(self)
+
 
 def writer_step(writer):
-    """Process exactly one queued task with the real WriterThread.run() body.
-    Returns the task processed (or None if queue empty). fakelmdb.Crash propagates."""
+    """Grant the parked writer exactly one queued task; returns when it parks again (or ended).  A process-kill marker
+    raised inside the writer (fakelmdb.Crash) is re-raised here, in the controller."""
     q = writer.queue
     if not q._items:
         return None
+    if not writer.is_alive():
+        if writer.died_with is not None:
+            raise writer.died_with
+        return None
     task = q._items[0]
-    q.budget = 1
-    try:
-        writer.run()
-    except _StepDone:
-        pass
-    finally:
-        q.budget = 0
+    q._grant.release()
+    if not q._parked.acquire(timeout=60):
+        raise HarnessError("writer thread did not park again")
+    if writer.died_with is not None and not writer.is_alive():
+        e = writer.died_with
+        raise e
+    if not writer.is_alive() and writer.died_with is not None:
+        raise writer.died_with
     return task
+
+
+def stop_writer(writer):
+    """make the parked thread leave run() (used at teardown)"""
+    q = getattr(writer, "queue", None)
+    if not isinstance(q, GrantQueue) or not writer.is_alive():
+        return
+    q.stopping = True
+    q._items.clear()
+    writer.running = False
+    q._grant.release()
+    writer._stop_requested = True
+    _REAL_THREAD.join(writer, 5)
 
 
 class JobExecutor:
@@ -102,10 +166,10 @@ class JobExecutor:
 
 
 def install(kv):
-    kv.threading = types.SimpleNamespace(Thread=InertThread)
-    kv.queue = types.SimpleNamespace(SimpleQueue=StepQueue, Queue=StepQueue, Full=Exception)
+    kv.threading = types.SimpleNamespace(Thread=ControlledThread)
+    kv.queue = types.SimpleNamespace(SimpleQueue=GrantQueue, Queue=GrantQueue, Full=Exception, Empty=Exception)
     kv.futures = types.SimpleNamespace(ThreadPoolExecutor=JobExecutor)
-    kv.WriterThread.__bases__ = (InertThread,)
+    kv.WriterThread.__bases__ = (ControlledThread,)
 
     def _analyze(plans, later=True, log=None):
         return None
